@@ -1707,7 +1707,8 @@ def fmt_doc_bytes(ftype, which):
 
 
 def cli_fmt_task(args):
-    """the real `deep patch` on a.<ftype> under fault plans, compared with patch_cmd_g (show_patch_g)"""
+    """the real `deep patch` on a.<ftype> under fault plans, compared with patch_cmd_g at the observed placement of json_dumps
+    (show_patch_gp; PlaceProofs.patch_cmd_gp_inside: at DInside it is patch_cmd_g)"""
     ftype, seed, thorough, scratch = args
     sys.path.insert(0, core.REPO)
     _quiet()
@@ -1746,6 +1747,7 @@ def cli_fmt_task(args):
 
     plans = [{}] + [{s: ("exc", v)} for (s, v) in POINTS] + [{s: ("base", v)} for (s, v) in rng.sample(POINTS, 4)]
     new_bytes = None
+    pos = None          # json target: where the implementation calls json_dumps (call trace of the fault-free run, plans[0])
     for plan in plans:
         for keep in (False, True):
             debug = rng.random() < 0.5
@@ -1769,12 +1771,15 @@ def cli_fmt_task(args):
             rep = _report(inj, None)
             if not plan and new_bytes is None and cli == ["exit", 0]:
                 new_bytes = obs["A"]
+            if not plan and pos is None and ftype == "json":
+                pos = dumps_placement(inj.trace)
+                res["counts"]["cli_fmt:placement:%s" % (pos or "DInside")] = 1
             table = {a_bytes: [1], b"GARB": [-3]}
             if new_bytes:
                 table[new_bytes] = [2, 2]
             coder = Coder(table)
-            expr = "show_patch_g %s %s %s %s %s %s %s None 1 2 %s" % (
-                core.coq_pystr(A), coq_fmt_list("load"), coq_fmt_list("save"), g_env(rep, coder, False),
+            expr = "show_patch_gp %s %s %s %s %s %s %s %s None 1 2 %s" % (
+                pos or "DInside", core.coq_pystr(A), coq_fmt_list("load"), coq_fmt_list("save"), g_env(rep, coder, False),
                 core.coq_bool(keep), core.coq_bool(debug), coq_opt_content([1]), g_sched(plan, rep, coder))
             exp = [sx_file(coder(obs["A"])), sx_file(coder(obs["bak"])), [cli[0], cli[1]]]
             tag = {"stream": "cli_fmt", "ftype": ftype, "keep": keep, "debug": debug, "faults": {s: list(kv) for s, kv in plan.items()}}
@@ -2017,7 +2022,8 @@ def _loads_or_none(text):
 def history_task(args):
     """3-5 `deep patch` commands in a row on one a.json, each with its own B, flags and fault plan; the delta of
     each command is made by the real `deep diff` from the CURRENT content of A (a stale one when A does not load).
-    After every command: (A, A.bak, exit status) against run_hist (show_history), and - independently of the
+    After every command: (A, A.bak, exit status) against run_hist at the placement of json_dumps observed on the
+    command's fault-free reference run (show_history_p -> run_hist_p; at DInside = run_hist), and - independently of the
     model - the statement's clauses for that command plus the invariant of C20_history_good_version_survives."""
     idx, seed, scratch = args
     sys.path.insert(0, core.REPO)
@@ -2071,6 +2077,7 @@ def history_task(args):
         return coder(text)
 
     hcmds, expected = [], []
+    pos = "DInside"                       # placement of the serialisation call, read off the reference runs' call traces
     cur_text = a_text0                    # the last complete version (for the invariant)
     stale = None
     guard_ok = True
@@ -2114,8 +2121,12 @@ def history_task(args):
                 f.write(a_now)
             with open(Pr, "wb") as f:
                 f.write(delta_bytes)
-            rr = CliRunner().invoke(patch, [Ar, Pr])
+            # (under an Injector with an empty plan: nothing fails, the call trace gives the placement of json_dumps)
+            inj_ref = Injector(Ar, Pr, {})
+            with inj_ref:
+                rr = CliRunner().invoke(patch, [Ar, Pr])
             new_text = read_text(Ar) if rr.exit_code == 0 else None
+            pos = dumps_placement(inj_ref.trace) or pos
             shutil.rmtree(dref, ignore_errors=True)
             if new_text is None:
                 res["fails"].append(({"history": True, "clause": "reproduces", "a_text": a_now, "b_text": read_text(B), "faults": {}},
@@ -2152,7 +2163,7 @@ def history_task(args):
         pend = code_text(rep["disk_before"].get("close")) if at_close else None
         ev = "(ev_of true %s None %s %s false)" % (coq_opt_content(pend), coq_opt_content(pend),
                                                    coq_optopt(rep["closed"], code_text(rep["closed_disk"]) if rep["closed"] else None))
-        hcmds.append("mkH %s %s %s %s %s %s" % (core.coq_bool(keep), core.coq_bool(debug), core.coq_Z(frm), core.coq_Z(rs), ev, sched))
+        hcmds.append("(%s, mkH %s %s %s %s %s %s)" % (pos, core.coq_bool(keep), core.coq_bool(debug), core.coq_Z(frm), core.coq_Z(rs), ev, sched))
         expected.append([sx_file(code_text(a_after)), sx_file(code_text(bak_after)), [cli[0], cli[1]]])
         count("history:cmd:%s" % ("fault_free" if not inj.fired else "faults_fired_%d" % len(inj.fired)))
         count("history:cli:%s" % ":".join(str(x) for x in cli))
@@ -2195,9 +2206,10 @@ def history_task(args):
             res["fails"].append((dict(case, clause="history", observed={"A": a_after, "bak": bak_after, "cli": cli}), what))
         res["seen"].append((("history", idx, ci, a_now, keep, debug, tuple(sorted(plan.items()))), True))
     if hcmds:
-        expr = "show_history %s %s [%s]" % (coq_opt_content([1]), coq_opt_content([-9] if prebak else None), "; ".join(hcmds))
+        expr = "show_history_p %s %s [%s]" % (coq_opt_content([1]), coq_opt_content([-9] if prebak else None), "; ".join(hcmds))
         res["cases"].append((expr, expected, {"stream": "history", "index": idx, "seed": seed, "commands": len(hcmds)}))
         count("history:length_%d" % len(hcmds))
+        count("history:placement:" + pos)
     if not guard_ok:
         count("history:debris_loads(guard_fails)")
     shutil.rmtree(work, ignore_errors=True)
